@@ -191,10 +191,30 @@ class Context:
         if not vrs:
             return
         t = bv.bitblast_table(vrs)
-        self.vars.update(t)
         bits = bv.bit_table(t, t)
+        self._avoid_bit_name_clash(bits)
+        self.vars.update(t)
         for bit in bits:
             self.bdd.add_var(bit)
+
+    def _avoid_bit_name_clash(self, bits):
+        """Raise `ValueError` if a new bit is already declared.
+
+        The bits that refine an integer-valued variable `x`
+        are named `x_0`, `x_1`, etc. Within one call,
+        `bitvector.bitblast_table` asserts that these names
+        differ from the declared Boolean-valued variables.
+        Here the same is ensured across calls, because
+        otherwise a variable declared earlier would silently
+        become one of the bits of another variable.
+        """
+        old_bits = bv.bit_table(self.vars, self.vars)
+        common = set(bits).intersection(old_bits)
+        if common:
+            raise ValueError(
+                'attempted to declare variables '
+                f'whose bits {common} coincide with '
+                'bits of already declared variables.')
 
     def _avoid_redeclaration(self, dvars):
         """Raise `ValueError` if types would change."""
